@@ -30,6 +30,8 @@ type simFilter struct {
 
 type filtKey int
 
+var bgCtx = context.Background()
+
 func (f *simFilter) PreRequest(req *http.Request) (context.Context, error) {
 	kern.Yield("filter-pre")
 	call := f.w.net.getCur(kern.CurID())
@@ -687,5 +689,5 @@ func pathSig(p string) string {
 }
 
 func TestS4(t *testing.T) {
-	harness.Main(t, map[string]harness.Scenario{"rpc": rpc, "tunnel": tunnel})
+	harness.Main(t, map[string]harness.Scenario{"rpc": rpc, "tunnel": tunnel, "canon": canon})
 }
